@@ -6,6 +6,7 @@ import (
 	"go/ast"
 	"go/parser"
 	"go/token"
+	"math/rand"
 	"os"
 	"path/filepath"
 	"reflect"
@@ -36,7 +37,13 @@ type c11Input struct {
 	Extras   bool     `json:"extras,omitempty"`            // restorer side: Restorer.Extras (objects and scopes restored, deferred declaring nodes)
 	Package  bool     `json:"package,omitempty"`           // the files are resolved as one package first (ast.NewPackage): identifiers of one file carry objects declared in another
 	Remove   bool     `json:"remove_first_stmt,omitempty"` // restorer side: the first statement of the first function is taken out after decorating (its objects keep pointing at it)
-	PkgAPI   string   `json:"package_api,omitempty"`       // decorator side, the package as the root node: "ParseDir" (Decorator.ParseDir on a directory holding the sources as f<i>.go) | "DecorateNode" (an *ast.Package per package name handed to DecorateNode)
+	// Via: restorer side, how the files reach the ONE Restorer: "" = Restorer.RestoreFile for every file (a fresh
+	// FileRestorer per call) | "filerestorer" = ONE FileRestorer (Restorer.FileRestorer()) whose RestoreFile is called
+	// for every file in turn | "mixed" = files 0, 2, ... through one reused FileRestorer, files 1, 3, ... through
+	// Restorer.RestoreFile | "two" = two FileRestorers of the Restorer used alternately.  After EVERY call the maps of
+	// the Restorer are compared with the walks of every file restored so far.
+	Via    string `json:"via,omitempty"`
+	PkgAPI string `json:"package_api,omitempty"` // decorator side, the package as the root node: "ParseDir" (Decorator.ParseDir on a directory holding the sources as f<i>.go) | "DecorateNode" (an *ast.Package per package name handed to DecorateNode)
 }
 
 func astKind(n ast.Node) string { return kindOf(n) }
@@ -261,13 +268,47 @@ func c11Check(in c11Input) (key, what string) {
 	}
 	r.Extras = in.Extras
 	var rafs []*ast.File
-	for _, df := range dfs {
+	var frs [2]*decorator.FileRestorer
+	for i, df := range dfs {
 		var raf *ast.File
 		var err error
-		if pm := safely(func() { raf, err = r.RestoreFile(df) }); pm != "" || err != nil {
+		restore := func() { raf, err = r.RestoreFile(df) }
+		how := "Restorer.RestoreFile"
+		slot := -1
+		switch in.Via {
+		case "filerestorer":
+			slot = 0
+		case "mixed":
+			if i%2 == 0 {
+				slot = 0
+			}
+		case "two":
+			slot = i % 2
+		}
+		if slot >= 0 {
+			if frs[slot] == nil {
+				frs[slot] = r.FileRestorer()
+			}
+			fr := frs[slot]
+			restore = func() { raf, err = fr.RestoreFile(df) }
+			how = fmt.Sprintf("RestoreFile of FileRestorer #%d of the Restorer", slot)
+		}
+		if pm := safely(restore); pm != "" || err != nil {
+			if in.Via != "" {
+				return "c11-restore-failed", fmt.Sprintf("restorer: file %d (%s): %v %s", i, how, err, pm)
+			}
 			return "", ""
 		}
 		rafs = append(rafs, raf)
+		if in.Via != "" {
+			// the maps belong to the Restorer: what they say about the files restored earlier is not touched
+			// by restoring another file
+			for j := range rafs {
+				if m := c11WalkLaws(r, rafs[j], dfs[j]); m != "" {
+					return "c11-walk", fmt.Sprintf("restorer: after file %d was restored (%s), file %d: %s", i, how, j, m)
+				}
+			}
+		}
 	}
 	for _, raf := range rafs {
 		var miss ast.Node
@@ -299,6 +340,57 @@ func c11Check(in c11Input) (key, what string) {
 	// the restorer's maps: Ast.Nodes: dst -> ast, Dst.Nodes: ast -> dst.  X / Sel of an expanded
 	// identifier map to the identifier; the identifier maps to the SelectorExpr.
 	return c11Laws(r.Dst.Nodes, r.Ast.Nodes, "restorer")
+}
+
+// c11WalkLaws: the restored file and the dst file it was made from, walked side by side with the
+// libraries' own traversals (ast.Inspect, comments excluded, not descending into a qualified
+// identifier that stands for ONE dst identifier; dst.Inspect): the same number of nodes, and at
+// every place of the walk Dst.Nodes[a] is the dst node met there and Ast.Nodes[d] is the ast node.
+func c11WalkLaws(r *decorator.Restorer, af *ast.File, df *dst.File) string {
+	var as []ast.Node
+	ast.Inspect(af, func(n ast.Node) bool {
+		switch n.(type) {
+		case nil:
+			return false
+		case *ast.Comment, *ast.CommentGroup:
+			return false
+		}
+		as = append(as, n)
+		if _, ok := n.(*ast.SelectorExpr); ok {
+			if id, ok := r.Dst.Nodes[n].(*dst.Ident); ok && id.Path != "" {
+				return false
+			}
+		}
+		return true
+	})
+	var ds []dst.Node
+	dst.Inspect(df, func(n dst.Node) bool {
+		if n == nil {
+			return false
+		}
+		ds = append(ds, n)
+		return true
+	})
+	for i := 0; i < len(as) && i < len(ds); i++ {
+		d, ok := r.Dst.Nodes[as[i]]
+		if !ok {
+			return fmt.Sprintf("node #%d of ast.Inspect (a %s) has no entry in Dst.Nodes of the Restorer", i, astKind(as[i]))
+		}
+		if d != ds[i] {
+			return fmt.Sprintf("node #%d of ast.Inspect (a %s): Dst.Nodes gives a %s that is not node #%d of dst.Inspect (a %s)", i, astKind(as[i]), kindOf(d), i, kindOf(ds[i]))
+		}
+		a, ok := r.Ast.Nodes[ds[i]]
+		if !ok {
+			return fmt.Sprintf("node #%d of dst.Inspect (a %s) has no entry in Ast.Nodes of the Restorer", i, kindOf(ds[i]))
+		}
+		if a != as[i] {
+			return fmt.Sprintf("node #%d of dst.Inspect (a %s): Ast.Nodes gives a %s that is not node #%d of ast.Inspect", i, kindOf(ds[i]), astKind(a), i)
+		}
+	}
+	if len(as) != len(ds) {
+		return fmt.Sprintf("ast.Inspect meets %d nodes, dst.Inspect %d", len(as), len(ds))
+	}
+	return ""
 }
 
 // c11PackageCheck: the package is the root node.  Decorator.ParseDir (the method: the helper of the
@@ -514,7 +606,7 @@ var c11DirFiles = [][]string{
 
 func c11Prop(c *Ctx) {
 	c11Scratch = filepath.Join(c.Verif, ".build")
-	c.Res.Rule = "groups of 1-3 sources (hand corpus, range/closure/label snippets whose objects point outside the tree, $GOROOT/src sample) x {decorator, restorer} x {no resolver, goast+guess import management}; all laws checked over the COMPLETE maps; non-trivial = distinct (sources, side, resolver)"
+	c.Res.Rule = "groups of 1-3 sources (hand corpus, range/closure/label snippets whose objects point outside the tree, $GOROOT/src sample) x {decorator, restorer} x {no resolver, goast+guess import management}; all laws checked over the COMPLETE maps; groups of 2-4 files through ONE Restorer by way of one reused FileRestorer / a reused FileRestorer mixed with Restorer.RestoreFile / two FileRestorers, the side-by-side walk (ast.Inspect vs dst.Inspect) of EVERY file restored so far checked after every call; non-trivial = distinct (sources, side, resolver)"
 	extra := []string{
 		"package a\n\nimport \"fmt\"\n\nfunc f(m map[string]int) {\n\tfor k, v := range m {\n\t\tfmt.Println(k, v)\n\t}\nL:\n\tfor i := range m {\n\t\t_ = i\n\t\tcontinue L\n\t}\n}\n",
 		"package a\n\nimport (\n\t\"io\"\n\t\"os\"\n)\n\ntype Set[T io.Reader] struct{ x T }\n\nfunc g() error {\n\tvar w io.Writer = os.Stdout\n\t_ = w\n\treturn io.EOF\n}\n",
@@ -529,6 +621,39 @@ func c11Prop(c *Ctx) {
 				c.Res.hist("c11", side+" cross-file objects")
 				if key, what := c11Check(in); key != "" {
 					c.Res.fail(key, what, in)
+				}
+			}
+		}
+	}
+	// several files through ONE Restorer by way of a reused FileRestorer / a mix of FileRestorers and
+	// Restorer.RestoreFile: the maps are the Restorer's, every file restored so far keeps its entries
+	{
+		var groups [][]string
+		for _, files := range c18CrossFiles {
+			groups = append(groups, files)
+		}
+		groups = append(groups, c11DirFiles...)
+		vrng := rand.New(rand.NewSource(c.Seed*7919 + 11)) // own stream: the samples below stay as they were
+		for i := 0; i < c.N(6); i++ {
+			var g []string
+			for j, n := 0, 2+vrng.Intn(3); j < n; j++ {
+				g = append(g, srcs[vrng.Intn(len(srcs))])
+			}
+			groups = append(groups, g)
+		}
+		for gi, g := range groups {
+			if len(g) == 1 {
+				g = append(append([]string{}, g...), extra[gi%len(extra)], g[0])
+			}
+			for _, via := range []string{"filerestorer", "mixed", "two"} {
+				for _, res := range []bool{false, true} {
+					in := c11Input{Srcs: g, Side: "restorer", Resolver: res, Via: via, Extras: (gi+len(via))%3 == 0}
+					c.Res.Evaluations++
+					c.Res.seen(fmt.Sprint("via", via, res, gi))
+					c.Res.hist("c11", fmt.Sprintf("restorer via=%s resolver=%v files=%d", via, res, len(g)))
+					if key, what := c11Check(in); key != "" {
+						c.Res.fail(key, what, in)
+					}
 				}
 			}
 		}
